@@ -556,6 +556,9 @@ class TextXVisitor(RRELVisitor):
                                 return True
                         else:
                             is_ordered_choice = isinstance(rule, OrderedChoice)
+                            # (any element of an unordered group may come
+                            # first in the input)
+                            is_unordered = isinstance(rule, UnorderedGroup)
                             results = []
                             for r in rule.nodes:
                                 if isinstance(r, (Not, And)) or r.suppress:
@@ -571,7 +574,7 @@ class TextXVisitor(RRELVisitor):
                                     # the result as well.
                                     added = False
                                 results.append(added)
-                                if added and not is_ordered_choice:
+                                if added and not (is_ordered_choice or is_unordered):
                                     # If not ordered choice we should get out
                                     # early as the rest of the rule shouldn't
                                     # influence the inheritance hierarchy.
